@@ -155,7 +155,9 @@ class DefaultErrorHandler(Contract):
     props = ('C20', 'C02', 'C08', 'C09')
     file = 'ombott/ombott.py'
     qualname = 'Ombott.default_error_handler'
-    assumptions = ('json.dumps of a dict of str/None values returns valid JSON (library)',)
+    assumptions = ('json.dumps of a dict of str/None values returns valid JSON (library)',
+                   'the error object handed in may be shared by all requests (the configured errors_map entries are): writing a header '
+                   'or attribute on it instead of on the response is a leak between requests')
     expected_labels = ('json.body_is_json_dumps_of_a_dict', 'json.content_type_set', 'html.rendered_with_request_url_and_configured_debug',
                        'post.returns_the_page_text_itself')
 
@@ -182,7 +184,10 @@ class DefaultErrorHandler(Contract):
                           'config': VObj('Config', {'debug': self.debug, 'catchall': X.fresh_bool('config_catchall')})})
         self.res = VObj('ErrResp', {'body': X.fresh_str('body'), 'status': X.fresh_str('status'), 'status_code': X.fresh_int('code'),
                                     'exception': VOpaque(X.fresh(PyObj, 'exc')),
-                                    'traceback': VOpaque(X.fresh(PyObj, 'tb'))})
+                                    'traceback': VOpaque(X.fresh(PyObj, 'tb')),
+                                    # the error's own header stores: it may be an object shared by all requests (errors_map entries)
+                                    'headers': VObj('ErrHeaders', {}), '_headers': VObj('ErrHeaders', {}),
+                                    '_cookies': VObj('ErrHeaders', {})})
         self.stored = {}
         return {'self': me, 'res': self.res}
 
@@ -202,7 +207,16 @@ class DefaultErrorHandler(Contract):
         if obj is self.hdr:
             self.stored[z3.simplify(key.t).as_string()] = val
             return True
+        if isinstance(obj, VObj) and obj.cls == 'ErrHeaders':
+            X.prove('frame.the_error_object_is_read_not_written', z3.BoolVal(False))
+            return True
         return False
+
+    def setattr_hook(self, X, obj, attr, val):
+        if obj is self.res:
+            X.prove('frame.the_error_object_is_read_not_written', z3.BoolVal(False))
+            return True
+        return None
 
     def post(self, X, ret):
         # the handler returns the page TEXT: _cast applies the raised error (status, Allow and the other headers of the error) to
